@@ -1,0 +1,41 @@
+//go:build verif
+
+// Machine-checked contracts for this package (comment-only; compiled only with
+// the build tag `verif`). Read by /verif/engine (govc); see /verif/DESIGN.md.
+package codegen
+
+// ---- WGSL binary operator -> SPIR-V opcode (C01, C08) ---------------------------
+//
+// The table is the WGSL meaning of each operator on each scalar kind, expressed
+// as the SPIR-V instruction with that meaning (SPIR-V spec 3.42.13-3.42.15):
+//   %  on floats is the truncated remainder (sign of the dividend): OpFRem
+//   %  on signed ints: OpSRem (sign of the dividend); /: OpSDiv / OpUDiv / OpFDiv
+//   <  on signed: OpSLessThan, unsigned: OpULessThan, float: ordered compare
+//   >> on signed is arithmetic, on unsigned logical
+// Every AddBinaryOp in emitBinary (the final one and the matrix/vector special
+// cases) is checked against the row selected by (binary.Op, scalarKind).
+//
+//@ func (*ExpressionEmitter).emitBinary
+//@   mode bv
+//@   tags C01 C08
+//@   at (*ModuleBuilder).AddBinaryOp assert [table] binary.Op == ir.BinaryAdd ==> arg1 == ite(scalarKind == ir.ScalarFloat, OpFAdd, OpIAdd)
+//@   at (*ModuleBuilder).AddBinaryOp assert [table] binary.Op == ir.BinarySubtract ==> arg1 == ite(scalarKind == ir.ScalarFloat, OpFSub, OpISub)
+//@   at (*ModuleBuilder).AddBinaryOp assert [table] binary.Op == ir.BinaryMultiply && scalarKind != ir.ScalarFloat ==> arg1 == OpIMul
+//@   at (*ModuleBuilder).AddBinaryOp assert [table] binary.Op == ir.BinaryMultiply && scalarKind == ir.ScalarFloat ==> arg1 == OpFMul || arg1 == OpVectorTimesScalar || arg1 == OpMatrixTimesScalar || arg1 == OpMatrixTimesVector || arg1 == OpVectorTimesMatrix || arg1 == OpMatrixTimesMatrix
+//@   at (*ModuleBuilder).AddBinaryOp assert [table] arg1 == OpVectorTimesScalar || arg1 == OpMatrixTimesScalar || arg1 == OpMatrixTimesVector || arg1 == OpVectorTimesMatrix || arg1 == OpMatrixTimesMatrix || arg1 == OpFMul || arg1 == OpIMul ==> binary.Op == ir.BinaryMultiply
+//@   at (*ModuleBuilder).AddBinaryOp assert [table] binary.Op == ir.BinaryDivide ==> arg1 == ite(scalarKind == ir.ScalarFloat, OpFDiv, ite(scalarKind == ir.ScalarSint, OpSDiv, OpUDiv))
+//@   at (*ModuleBuilder).AddBinaryOp assert [table] binary.Op == ir.BinaryModulo && scalarKind != ir.ScalarFloat ==> arg1 == ite(scalarKind == ir.ScalarSint, OpSRem, OpUMod)
+//@   at (*ModuleBuilder).AddBinaryOp assert [mod-float] binary.Op == ir.BinaryModulo && scalarKind == ir.ScalarFloat ==> arg1 == OpFRem
+//@   at (*ModuleBuilder).AddBinaryOp assert [table] binary.Op == ir.BinaryEqual ==> arg1 == ite(scalarKind == ir.ScalarFloat, OpFOrdEqual, ite(scalarKind == ir.ScalarBool, OpLogicalEqual, OpIEqual))
+//@   at (*ModuleBuilder).AddBinaryOp assert [table] binary.Op == ir.BinaryNotEqual ==> (scalarKind == ir.ScalarFloat && arg1 == OpFOrdNotEqual) || (scalarKind == ir.ScalarBool && arg1 == OpLogicalNotEqual) || (scalarKind != ir.ScalarFloat && scalarKind != ir.ScalarBool && arg1 == OpINotEqual)
+//@   at (*ModuleBuilder).AddBinaryOp assert [table] binary.Op == ir.BinaryLess ==> arg1 == ite(scalarKind == ir.ScalarFloat, OpFOrdLessThan, ite(scalarKind == ir.ScalarSint, OpSLessThan, OpULessThan))
+//@   at (*ModuleBuilder).AddBinaryOp assert [table] binary.Op == ir.BinaryLessEqual ==> arg1 == ite(scalarKind == ir.ScalarFloat, OpFOrdLessThanEqual, ite(scalarKind == ir.ScalarSint, OpSLessThanEqual, OpULessThanEqual))
+//@   at (*ModuleBuilder).AddBinaryOp assert [table] binary.Op == ir.BinaryGreater ==> arg1 == ite(scalarKind == ir.ScalarFloat, OpFOrdGreaterThan, ite(scalarKind == ir.ScalarSint, OpSGreaterThan, OpUGreaterThan))
+//@   at (*ModuleBuilder).AddBinaryOp assert [table] binary.Op == ir.BinaryGreaterEqual ==> arg1 == ite(scalarKind == ir.ScalarFloat, OpFOrdGreaterThanEqual, ite(scalarKind == ir.ScalarSint, OpSGreaterThanEqual, OpUGreaterThanEqual))
+//@   at (*ModuleBuilder).AddBinaryOp assert [table] binary.Op == ir.BinaryAnd ==> arg1 == ite(scalarKind == ir.ScalarBool, OpLogicalAnd, OpBitwiseAnd)
+//@   at (*ModuleBuilder).AddBinaryOp assert [table] binary.Op == ir.BinaryInclusiveOr ==> arg1 == ite(scalarKind == ir.ScalarBool, OpLogicalOr, OpBitwiseOr)
+//@   at (*ModuleBuilder).AddBinaryOp assert [table] binary.Op == ir.BinaryExclusiveOr ==> arg1 == OpBitwiseXor
+//@   at (*ModuleBuilder).AddBinaryOp assert [table] binary.Op == ir.BinaryLogicalAnd ==> arg1 == OpLogicalAnd
+//@   at (*ModuleBuilder).AddBinaryOp assert [table] binary.Op == ir.BinaryLogicalOr ==> arg1 == OpLogicalOr
+//@   at (*ModuleBuilder).AddBinaryOp assert [table] binary.Op == ir.BinaryShiftLeft ==> arg1 == OpShiftLeftLogical
+//@   at (*ModuleBuilder).AddBinaryOp assert [table] binary.Op == ir.BinaryShiftRight ==> arg1 == ite(scalarKind == ir.ScalarSint, OpShiftRightArithmetic, OpShiftRightLogical)
